@@ -237,8 +237,10 @@ class StringRecognizer(Recognizer):
 
     def __call__(self, in_str, pos):
         if self.ignore_case:
-            if in_str[pos : pos + len(self.value)].lower() == self.value_cmp:
-                return self.value
+            # Return what is found in the input, it may differ in case.
+            found = in_str[pos : pos + len(self.value)]
+            if found.lower() == self.value_cmp:
+                return found
         else:
             if in_str[pos : pos + len(self.value)] == self.value_cmp:
                 return self.value
